@@ -319,6 +319,28 @@ fn run_program(tid: usize, root: Node, prog: Vec<String>) -> Vec<String> {
                 ("s", Some(NodeOrToken::Token(t))) => Res::NewReg(t.next_sibling_or_token().map(own)),
                 ("p", Some(NodeOrToken::Node(n))) => Res::NewReg(n.prev_sibling_or_token().map(own)),
                 ("p", Some(NodeOrToken::Token(t))) => Res::NewReg(t.prev_sibling_or_token().map(own)),
+                // the same hops through the NODE-ONLY routes (first_child, last_child, next_sibling, prev_sibling) whenever the
+                // element they reach is a node: same position, same protocol, other code (get_or_add_node)
+                ("a", Some(NodeOrToken::Node(n))) => Res::NewReg(if n.green().children().next().map_or(false, |c| c.as_node().is_some()) {
+                    n.first_child().map(|c| NodeOrToken::Node(c.clone()))
+                } else {
+                    n.first_child_or_token().map(own)
+                }),
+                ("z", Some(NodeOrToken::Node(n))) => Res::NewReg(if n.green().children().next_back().map_or(false, |c| c.as_node().is_some()) {
+                    n.last_child().map(|c| NodeOrToken::Node(c.clone()))
+                } else {
+                    n.last_child_or_token().map(own)
+                }),
+                ("n", Some(NodeOrToken::Node(n))) => {
+                    let next_is_node = n.parent().zip(n.verif_index()).map_or(false, |(p, i)| p.green().children().nth(i as usize + 1).map_or(false, |c| c.as_node().is_some()));
+                    Res::NewReg(if next_is_node { n.next_sibling().map(|c| NodeOrToken::Node(c.clone())) } else { n.next_sibling_or_token().map(own) })
+                }
+                ("n", Some(NodeOrToken::Token(t))) => Res::NewReg(t.next_sibling_or_token().map(own)),
+                ("b", Some(NodeOrToken::Node(n))) => {
+                    let prev_is_node = n.parent().zip(n.verif_index()).map_or(false, |(p, i)| i > 0 && p.green().children().nth(i as usize - 1).map_or(false, |c| c.as_node().is_some()));
+                    Res::NewReg(if prev_is_node { n.prev_sibling().map(|c| NodeOrToken::Node(c.clone())) } else { n.prev_sibling_or_token().map(own) })
+                }
+                ("b", Some(NodeOrToken::Token(t))) => Res::NewReg(t.prev_sibling_or_token().map(own)),
                 ("k", Some(e)) => Res::NewReg(Some(e.clone())),
                 ("d", Some(_)) => Res::DropReg,
                 ("S", Some(NodeOrToken::Node(n))) => Res::Text(format!("set={}", n.set_data(Payload::new(arg.unwrap_or(0))).0)),
@@ -334,7 +356,7 @@ fn run_program(tid: usize, root: Node, prog: Vec<String>) -> Vec<String> {
                     n.clear_data();
                     Res::Text("cleared".into())
                 }
-                (c, _) if "fcslpk".contains(c) => Res::NewReg(None),
+                (c, _) if "fcslpkaznb".contains(c) => Res::NewReg(None),
                 _ => Res::Text("-".into()),
             }
         };
